@@ -204,6 +204,7 @@ def model (toks : List String) : String :=
       let (t, _) ← parseTy rest
       pure (encodeTy (jsonTy t))
   | "pred" :: _ => "nomodel"
+  | "e2e" :: _ => "nomodel"
   | _ => "bad-op"
 
 /-- split the implementation's output at the `|` tokens -/
@@ -309,6 +310,9 @@ def judge (toks : List String) (out : List String) : String :=
           "known json-invalid-utf8 a struct field name that is not valid UTF-8 reaches the plugin with U+FFFD in place of the offending bytes"
         else "bad type-changed-by-json"
       | none => "bad unparsable-op")
+  | "e2e" :: _, [res :: _] =>
+    -- the same query on the same data, natively and through the plugin process
+    if res == "same" || res == "err-both" || res == "unavailable" then "ok" else "bad plugin-table-differs-from-native"
   | "pred" :: _, [[res]] => if res == "same" then "ok" else "bad predicate-" ++ res
   | "pred" :: _, [res :: detail] => if res == "same" then "ok" else "bad predicate-" ++ res ++ " " ++ String.intercalate " " detail
   | _, _ => "bad unparsable-impl-output"
